@@ -64,7 +64,7 @@ func c09One(l *LabCtx) {
 	sort.Strings(qids)
 	nAgg := 1 + r.Pick(3)
 	var aggs []*oracletypes.Aggregate
-	power := map[string]uint64{}      // reporter -> Σ power contributed
+	power := map[string]uint64{}       // reporter -> Σ power contributed
 	firstRef := map[string]reportRef{} // reporter -> the reference AllocateRewards will use (first seen)
 	appear := map[string]int{}
 	var total uint64
